@@ -41,7 +41,9 @@ ASSUMPTIONS = [
     "only logged by SPSDK and is not judged)",
     "NXP-signed classes and the MC56F81xxx ISK certificate use self-made keys",
 ]
-FLOORS = {"len%16!=0": 0.2, "certv1": 0.1, "certv21": 0.1, "crc": 0.1, "hmac": 0.02, "chain_mixed": 0.02, "isk": 0.04, "flips_checked": 0.5}
+# about one third of the smallest share seen in clean quick runs with seeds 1, 2, 3, 7, 1234 (see notes/c02-report.md)
+FLOORS = {"len%16!=0": 0.30, "certv1": 0.08, "certv21": 0.10, "crc": 0.08, "hmac": 0.03, "encrypted": 0.012, "chain_mixed": 0.025,
+          "root_size!=signer_size": 0.02, "isk": 0.04, "used_root:1": 0.015, "flips_checked": 0.9}
 
 FIX = os.path.join(VERIF_DIR, "fixtures", "c02")
 GOLDENS = [
